@@ -51,8 +51,11 @@ TraceInit ==
 
 HasEv(name) == e <= Len(Case.ev) /\ Ev.ev = name
 
+\* an environment = (process, pool size, repetition, builder history)
+Hists == {In.hists[q] : q \in 1..Len(In.hists)}
 Planned ==
-  UNION {{<<p, In.plan[q][1], r>> : p \in 0..(In.nproc - 1), r \in 0..(In.plan[q][2] - 1)} : q \in 1..Len(In.plan)}
+  UNION {{<<p, In.plan[q][1], r, h>> : p \in 0..(In.nproc - 1), r \in 0..(In.plan[q][2] - 1), h \in Hists} : q \in 1..Len(In.plan)}
+EnvOf(ev) == <<ev.proc, ev.thr, ev.rep, ev.hist>>
 
 -----------------------------------------------------------------------------
 (* hook layer *)
@@ -133,7 +136,7 @@ SameHier(ev) ==
   /\ Renaming(RawOf(ref.raw, "labels"), RawOf(ev.raw, "labels"))
 
 \* the clauses a run event has to satisfy (evaluated once per event, see TRun)
-EnvOk  == LET k == <<Ev.proc, Ev.thr, Ev.rep>> IN k \in Planned /\ k \notin envs
+EnvOk  == LET k == EnvOf(Ev) IN k \in Planned /\ k \notin envs
 DevHier == ref # NoRef /\ ~SameStrict(Ev) /\ SameHier(Ev)
 RunOk ==
   /\ EnvOk
@@ -160,12 +163,12 @@ FirstDiff(a, b) ==
   ELSE a[CHOOSE q \in 1..Len(a) : a[q] # b[q] /\ \A p \in 1..(q - 1) : a[p] = b[p]][1]
 
 \* (one string: TLC wraps long tuples over several lines, which the orchestrator would not parse)
-EnvStr(ev) == "proc " \o ToString(ev.proc) \o " threads " \o ToString(ev.thr) \o " rep " \o ToString(ev.rep)
+EnvStr(ev) == "proc " \o ToString(ev.proc) \o " threads " \o ToString(ev.thr) \o " rep " \o ToString(ev.rep) \o " builder " \o ev.hist
 Why ==
   IF e > Len(Case.ev) THEN
      "end: environments run (" \o ToString(Cardinality(envs)) \o ") differ from the plan (" \o ToString(Cardinality(Planned)) \o ")"
   ELSE IF Ev.ev # "run" THEN "event " \o ToString(e) \o " " \o Ev.ev \o ": " \o Ev.msg
-  ELSE IF <<Ev.proc, Ev.thr, Ev.rep>> \notin Planned \/ <<Ev.proc, Ev.thr, Ev.rep>> \in envs
+  ELSE IF EnvOf(Ev) \notin Planned \/ EnvOf(Ev) \in envs
      THEN "event " \o ToString(e) \o " unplanned or repeated environment " \o EnvStr(Ev)
   ELSE IF Len(Ev.obs) < NData THEN "event " \o ToString(e) \o " no observations"
   ELSE IF ~HookOk(Ev) THEN
@@ -186,7 +189,7 @@ Why ==
 WhyShort ==
   IF e > Len(Case.ev) THEN "plan-not-covered"
   ELSE IF Ev.ev # "run" THEN Ev.ev
-  ELSE IF <<Ev.proc, Ev.thr, Ev.rep>> \notin Planned \/ <<Ev.proc, Ev.thr, Ev.rep>> \in envs THEN "environment"
+  ELSE IF EnvOf(Ev) \notin Planned \/ EnvOf(Ev) \in envs THEN "environment"
   ELSE IF Len(Ev.obs) < NData THEN "no-observations"
   ELSE IF ~HookOk(Ev) THEN "schedule-hook"
   ELSE IF ref # NoRef /\ Premise(Ev.obs) # Premise(ref.obs) THEN "premise"
@@ -199,7 +202,7 @@ TRun ==
   /\ HasEv("run")
   /\ LET ok == RunOk IN
      IF ok
-       THEN /\ envs' = envs \cup {<<Ev.proc, Ev.thr, Ev.rep>>}
+       THEN /\ envs' = envs \cup {EnvOf(Ev)}
             /\ ref' = IF ref = NoRef THEN [obs |-> Ev.obs, raw |-> Ev.raw] ELSE ref
             /\ used' = IF DevHier THEN used \cup {"hier_label_order"} ELSE used
             /\ e' = e + 1
